@@ -31,26 +31,34 @@ pub fn fill(pattern: usize, n: usize) -> Vec<u8> {
 
 impl Ctx {
     pub fn new(tier: &str, seed: u64) -> Ctx {
+        Ctx::with_pool(tier, seed, true)
+    }
+
+    /// `full_pool = false`: a small pool of small messages (interpreters such as Miri are ~4 orders of magnitude slower)
+    pub fn with_pool(tier: &str, seed: u64, full_pool: bool) -> Ctx {
         // base pool for mutations / splicing: small well-formed messages from G1 and G2
         let mut pool = vec![];
-        let shapes = gen::shapes();
-        for m in shapes.iter().filter(|m| crate::common::ref_bytes(m).len() < 600).step_by(7) {
-            pool.push(crate::common::ref_bytes(m));
+        if full_pool {
+            let shapes = gen::shapes();
+            for m in shapes.iter().filter(|m| crate::common::ref_bytes(m).len() < 600).step_by(7) {
+                pool.push(crate::common::ref_bytes(m));
+            }
         }
+        let n = if full_pool { 150u64 } else { 12 };
         let cfg = G1Cfg::default();
-        for i in 0..150u64 {
+        for i in 0..n {
             let mut r = Rng::fork(seed ^ 0x9001, i);
             let m = gen::gen_model(&mut r, &cfg);
             let b = crate::common::ref_bytes(&m);
-            if b.len() < 3000 {
+            if b.len() < if full_pool { 3000 } else { 400 } {
                 pool.push(b);
             }
         }
-        for i in 0..150u64 {
+        for i in 0..n {
             let mut r = Rng::fork(seed ^ 0x9002, i);
             let w = gen::gen_wire(&mut r, false);
             let b = ippref::encode(&w);
-            if b.len() < 3000 {
+            if b.len() < if full_pool { 3000 } else { 400 } {
                 pool.push(b);
             }
         }
